@@ -696,7 +696,7 @@ class Node:
                     f"`before=node` ({before._parent}) "
                     f"must be a child of target node ({self})"
                 )
-            idx = children.index(before)  # raises ValueError
+            idx = before._get_sibling_index()  # compare by identity
             children.insert(idx, node)
         else:
             children.append(node)
@@ -835,7 +835,7 @@ class Node:
             new_parent._children = [self]  # type: ignore
         elif isinstance(before, Node):
             assert before._parent is new_parent, before
-            idx = target_siblings.index(before)  # raise ValueError if not found
+            idx = before._get_sibling_index()  # compare by identity
             target_siblings.insert(idx, self)
         elif isinstance(before, int):
             target_siblings.insert(before, self)
